@@ -12,7 +12,9 @@ def handlers : List (String × (Case → String)) := [
   ("op", Drivers.Op.run),
   ("share", Drivers.Share.run),
   ("conn", Drivers.Share.runConn),
-  ("sharec", Drivers.Share.runConc)
+  ("sharec", Drivers.Share.runConc),
+  ("connc", Drivers.Share.runConc),
+  ("sharex", Drivers.Share.runScenario)
 ]
 
 def runCase (c : Case) : String :=
